@@ -362,3 +362,5 @@ func (g *Gen) randomOPR(version uint8, dbht int32, prevWinners []string, modify 
 	extids[1] = hsh[:8]
 	return entryhash, extids, content
 }
+
+type factomFs = factom.FsAddress
